@@ -18,7 +18,7 @@ def confirm(ids):
     for d in sorted(glob.glob("/tmp/mut/C??/out")):
         prop = d.split("/")[3]
         if ids and prop not in ids: continue
-        for k in (1, 2, 3, 4, 5, 6, 7, 8, 9, 10):
+        for k in (1, 2, 3, 4, 5, 6, 7, 8, 9, 10, 11):
             patch, demo, notes = ["%s/%s%d.%s" % (d, n, k, e) for n, e in (("patch", "diff"), ("demo", "rs"), ("notes", "md"))]
             if not (os.path.exists(patch) and os.path.exists(demo)): continue
             dst = "%s/seeded/%s-%d" % (V, prop, k)
